@@ -279,7 +279,7 @@ func runC03(c *Check) {
 			rk, _ := rootOf(ld.X, 0, map[ssa.Value]bool{})
 			return rk == rParam
 		}
-		for _, b := range ch.Blocks {
+		for _, b := range helperBlocks(ch, 2) {
 			for _, ins := range b.Instrs {
 				switch x := ins.(type) {
 				case *ssa.Phi:
@@ -302,7 +302,7 @@ func runC03(c *Check) {
 		if upd == nil {
 			c.undecided("C03-R7", "timenanos", p.relFile(ch.Pos()), "the update of the merged TimeNanos was not found in combineHeaders")
 		} else {
-			reach := reachUnder(ch, func(cond ssa.Value) int {
+			reach := reachUnder(upd.Parent(), func(cond ssa.Value) int {
 				cmp, ok := cond.(*ssa.BinOp)
 				if !ok {
 					return 0
@@ -460,6 +460,21 @@ func runC03(c *Check) {
 				return
 			}
 			seen[v] = true
+			// the identity string computed by a helper: classify what each of its returns hands
+			// back, under the same assumption, in the helper's own flow graph
+			if call, ok := v.(*ssa.Call); ok {
+				if h := call.Call.StaticCallee(); h != nil && fnInModule(h) && len(h.Blocks) > 0 && h.Signature.Results().Len() == 1 && reach[blk] {
+					saved := reach
+					reach = reachUnder(h, func(cond ssa.Value) int { return -strFieldEmptyCond(cond, "BuildID") })
+					for _, hb := range h.Blocks {
+						if ret, isRet := hb.Instrs[len(hb.Instrs)-1].(*ssa.Return); isRet {
+							classify(ret.Results[0], hb, ret.Pos(), seen)
+						}
+					}
+					reach = saved
+					return
+				}
+			}
 			if ph, ok := v.(*ssa.Phi); ok {
 				for i, e := range ph.Edges {
 					pred := ph.Block().Preds[i]
